@@ -158,10 +158,10 @@ PROPS["C10"] = {
     "assumptions": ["a git subprocess signals failure through its exit status or a signal"],
 }
 PROPS["C13"] = {
-    "level_text": "Theorems over the REGENERATED call-site table: every git command except the one discovery call goes through GitCommand; GitCommand puts --no-replace-objects first and sets GIT_DIR=<discovered> and GIT_GRAFT_FILE=/dev/null; the shallow marker is looked up through the pinned repository. Exploration on the real binary: identical report (byte-for-byte) from work-tree top, subdirectory, GIT_DIR from outside, `git -C dir sizer`, a bare copy and a linked worktree; with replace refs (commits/trees/blobs) and graft lines planted the numbers equal the specification on the STORED objects; shallow marker => refused with empty stdout.",
+    "level_text": "Theorems over the REGENERATED call-site table: every git command except the one discovery call goes through GitCommand; GitCommand puts --no-replace-objects first and sets GIT_DIR=<discovered> and GIT_GRAFT_FILE=/dev/null; the shallow marker is looked up through the pinned repository. Exploration on the real binary: identical report (byte-for-byte) from work-tree top, subdirectory, GIT_DIR from outside, `git -C dir sizer`, a bare copy and a linked worktree; with replace refs (commits/trees/blobs) and graft lines planted the numbers equal the specification on the STORED objects; shallow marker => refused with empty stdout. `Pins.Repo` (REGENERATED statements of git/git.go): `shallow_refused` (no path returns a repository whose shallow marker exists), `discovery_relative_to_start`, `commands_pinned_after_callers_environment` (GIT_DIR / GIT_GRAFT_FILE appended after os.Environ(), so they override the caller's).",
     "level_note": "Partial: git's own repository discovery is outside the model; equality across addressing modes is checked on generated repositories only.",
     "technique": "Lean 4 proof over regenerated tables (decide) + end-to-end exploration",
-    "modules": ["GitSizer.Props.C13"],
+    "modules": ["GitSizer.Props.C13", "GitSizer.Props.Pins.Repo"],
     "engines": [{"name": "addr", "quick": 160, "thorough": 8000, "per_shard": 10}],
     "rule": "generated real repositories with work tree; half carry replace refs and graft lines, one in eight a shallow marker; 5-6 addressing modes per case; non-trivial = every case.",
     "assumptions": ["git honours --no-replace-objects and GIT_GRAFT_FILE"],
